@@ -123,9 +123,25 @@ Proof.
   apply reach_step with (s := s4) (o := OResolve 1700020000); [exact R4 | reflexivity | simpl; lia | vm_compute; reflexivity].
 Qed.
 
-(* Reload.  Full statement (not yet a theorem; carried by the correspondence, which reloads the real AddrMan and compares every
-   address, its statistics and its table placement before and after):
-     forall s order, reachable s -> Permutation order (map fst (s_info s)) ->
+(* Reload, the Serialize half: for every iteration order of mapInfo, Serialize hits none of its assertions and the file holds exactly
+   nNew new and nTried tried entries: every address with its source, nTime (it fits the uint32 used on disk), services, last success
+   and attempt count, and nothing else.
+   The Unserialize half is NOT yet a theorem (it is carried by the correspondence, which reloads the real AddrMan in about every
+   third script and compares every address, its statistics and its table placement before and after).  Full statement:
+     forall s order, reachable s -> NoDup order -> (forall id, In id order <-> In id (keys (s_info s))) ->
        exists f s', serialize real_cfg s order = Ok f /\ unserialize real_cfg tb nb bp valid network f true = Ok s' /\
                     s_nnew s' = s_nnew s /\ s_ntried s' = s_ntried s /\
-                    (forall k, option_map entry_of (find_addr s' k) = option_map entry_of (find_addr s k)) /\ (tables agree by address). *)
+                    (forall k, option_map (fun x => entry_of (snd x)) (find_addr s' k) = option_map (fun x => entry_of (snd x)) (find_addr s k)) /\
+                    (the new and tried tables of s' hold the same addresses in the same slots as those of s). *)
+Theorem C37_serialize_writes_every_address_with_its_statistics_partial :
+  forall tried_bucket new_bucket bucket_pos routable valid network netclass addr_of,
+  hash_ranges tried_bucket new_bucket bucket_pos ->
+  forall s order, reachable tried_bucket new_bucket bucket_pos routable valid network netclass addr_of s ->
+    NoDup order -> (forall id, In id order <-> In id (keys (s_info s))) ->
+    exists f, serialize real_cfg s order = Ok f /\ f_nnew f = s_nnew s /\ f_ntried f = s_ntried s /\
+      zlen (f_new f) = s_nnew s /\ zlen (f_tried f) = s_ntried s /\
+      (forall id a, zfind id (s_info s) = Some a ->
+         In (mkSentry (a_key a) (a_src a) (a_time a) (a_services a) (a_last_success a) (a_attempts a)) (if a_tried a then f_tried f else f_new f)) /\
+      (forall e, In e (f_new f) \/ In e (f_tried f) -> exists id a, zfind id (s_info s) = Some a /\ e = entry_of a).
+Proof. exact real_serialize_ok. Qed.
+Print Assumptions C37_serialize_writes_every_address_with_its_statistics_partial.
